@@ -1357,29 +1357,14 @@ impl<T> TLengthProtocol for TCompactInputProtocol<T> {
     fn field_begin_len(&mut self, field_type: TType, id: Option<i16>) -> usize {
         // `id` is an Option<i16> following trait [`TLengthProtocol`]
         // field_begin_len.
-        match field_type {
-            TType::Bool => {
-                if self.pending_read_bool_field_identifier.is_some() {
-                    panic!(
-                        "should not have a pending bool while reading another bool with id: \
-                        {:?}",
-                        id,
-                    )
-                }
-                self.pending_read_bool_field_identifier = Some(TFieldIdentifier {
-                    name: None,
-                    field_type,
-                    id,
-                });
-                0
-            }
-            _ => {
-                let tc_field_type = TCompactType::try_from(field_type).unwrap(); // this should never happen
-                let mut ax = 0;
-                read_field_header_len!(self, ax, tc_field_type, id.expect("expecting a field id"));
-                ax
-            }
-        }
+        // Unlike the writer, the reader has already consumed the whole field header when
+        // this is called (for a bool field the header carries the value too), so nothing
+        // is deferred to `bool_len`: decoders never call it, and a deferred identifier
+        // would make the following `field_end_len` panic.
+        let tc_field_type = TCompactType::try_from(field_type).unwrap(); // this should never happen
+        let mut ax = 0;
+        read_field_header_len!(self, ax, tc_field_type, id.expect("expecting a field id"));
+        ax
     }
     #[inline]
     fn field_end_len(&mut self) -> usize {
